@@ -1,7 +1,9 @@
 (* C15 — Kind-aware queries of a typed tree equal filtering the child list by kind.
    Statements only; proofs are in theories/Forest/NavProofs.v. *)
+From Coq Require Import String.
 From Coq Require Import List ZArith Bool.
-From NT Require Import Sx Rose Nav NavProofs.
+From NT Require Import Sx Rose Nav NavProofs NavLaws NavSource NavSourceTyped.
+From NTGen Require Import Generated.
 Import ListNotations.
 
 (* children of a kind, first/last child of a kind, has-children of a kind:
@@ -70,6 +72,82 @@ Theorem C15_iter_by_type : forall (f : forest) (k : text),
   t_iter_by_type f (Some k) = filter (kind_is k) (pre_f f) /\ t_iter_by_type f None = pre_f f.
 Proof. intros f k. split; [exact (typed_iter_by_type f k)|exact (typed_iter_any f)]. Qed.
 Print Assumptions C15_iter_by_type.
+
+(* the same in positional form, without reference to the plain queries: split the sibling list FILTERED by the
+   node's kind at the node; index = number of same-kind siblings before it, previous / next = the nearest
+   same-kind sibling before / after it, first / last = the ends of the filtered list *)
+Theorem C15_typed_positions : forall (f : forest) (n : nat) (c : ctx) (k : text),
+  NoDup (ids f) -> locate_f n f = Some c -> rkind (c_self c) = Some k ->
+  exists l1 l2,
+    filter (fun t => same_kind t (c_self c)) (c_sibs c) = l1 ++ c_self c :: l2 /\
+    (forall x, In x (l1 ++ l2) -> rkind x = Some k /\ In x (c_sibs c) /\ rid x <> rid (c_self c)) /\
+    t_index c false = Some (length l1) /\
+    t_prev c false = last_error l1 /\
+    t_next c false = hd_error l2 /\
+    t_first_sibling c false = hd_error (l1 ++ [c_self c]) /\
+    t_last_sibling c false = last_error (c_self c :: l2) /\
+    (t_is_first c false = true <-> l1 = []) /\
+    (t_is_last c false = true <-> l2 = []) /\
+    t_siblings c false false = l1 ++ l2 /\
+    t_siblings c false true = l1 ++ c_self c :: l2.
+Proof. exact typed_positions. Qed.
+Print Assumptions C15_typed_positions.
+
+(* ================================================================== *)
+(* Source tie: lexical facts lifted from nutree/typed_tree.py            *)
+(* (Generated.v, section NAVT) agree with what the model computes         *)
+(* ================================================================== *)
+
+(* the typed position accessors find the node BY IDENTITY (`is self` / Node.get_index(self)) in
+   self._parent._children, never by ==/in/list.index; every `==` they contain compares kinds *)
+Theorem C15_source_identity_and_kind_compares : GEN_NAV_OK = true /\ GEN_NAVT_OK = true /\ typed_identity_ok = true.
+Proof. exact typed_identity_holds. Qed.
+Print Assumptions C15_source_identity_and_kind_compares.
+
+(* has_children(kind): the comparison `len(self.get_children(kind)) <op> <k>` of the source, evaluated, is the model *)
+Theorem C15_source_has_children : forall (ch : list rt) (k : text),
+  cmp_eval NAV_T_HAS_CHILDREN_OP (Z.of_nat (length (t_get_children ch (Some k)))) NAV_T_HAS_CHILDREN_K
+  = Some (t_has_children ch (Some k)).
+Proof. exact typed_has_children_agrees. Qed.
+Print Assumptions C15_source_has_children.
+
+(* next_sibling: guard `own_idx <op> pc_len + <k>` and scan start `own_idx + <s>` of the source give the model *)
+Theorem C15_source_next_sibling : forall (c : ctx) (any : bool) (i : nat),
+  index_of (rid (c_self c)) (c_sibs c) = Some i ->
+  t_next c any =
+  match cmp_eval NAV_T_NEXT_GUARD_OP (Z.of_nat i) (Z.of_nat (length (c_sibs c)) + NAV_T_NEXT_GUARD_ADD)%Z with
+  | Some true => find (fun t => any || same_kind t (c_self c))
+                      (skipn (Z.to_nat (Z.of_nat i + NAV_T_NEXT_RANGE_START)) (c_sibs c))
+  | _ => None
+  end.
+Proof. exact typed_next_agrees. Qed.
+Print Assumptions C15_source_next_sibling.
+
+(* prev_sibling: guard `own_idx <op> <k>`, downward scans to index 0 inclusive (also in last_child) *)
+Theorem C15_source_prev_sibling : forall (c : ctx) (any : bool) (i : nat),
+  index_of (rid (c_self c)) (c_sibs c) = Some i ->
+  t_prev c any =
+  match cmp_eval NAV_T_PREV_GUARD_OP (Z.of_nat i) NAV_T_PREV_GUARD_K with
+  | Some true => find (fun t => any || same_kind t (c_self c)) (rev (firstn i (c_sibs c)))
+  | _ => None
+  end /\
+  NAV_T_PREV_RANGE = [-1; -1; -1]%Z /\ NAV_T_LAST_CHILD_RANGE = [-1; -1; -1]%Z.
+Proof. exact typed_prev_agrees. Qed.
+Print Assumptions C15_source_prev_sibling.
+
+(* the ANY_KIND / any_kind=True branches index the full list at the literal subscripts of the source *)
+Theorem C15_source_subscripts : forall (c : ctx) (ch : list rt),
+  t_first_child ch None = py_at ch (tsub_lit "TypedNode.first_child") /\
+  t_last_child ch None = py_at ch (tsub_lit "TypedNode.last_child") /\
+  t_first_sibling c true = py_at (c_sibs c) (tsub_lit "TypedNode.first_sibling") /\
+  t_last_sibling c true = py_at (c_sibs c) (tsub_lit "TypedNode.last_sibling") /\
+  t_is_first c true = match py_at (c_sibs c) (tsub_lit "TypedNode.is_first_sibling") with
+                      | Some t => is_self (rid (c_self c)) t | None => false end /\
+  t_is_last c true = match py_at (c_sibs c) (tsub_lit "TypedNode.is_last_sibling") with
+                     | Some t => is_self (rid (c_self c)) t | None => false end /\
+  tsub_var "TypedNode.prev_sibling" = 0%Z /\ tsub_var "TypedNode.next_sibling" = 0%Z /\ tsub_var "TypedNode.last_child" = 0%Z.
+Proof. exact typed_subscripts_agree. Qed.
+Print Assumptions C15_source_subscripts.
 
 (* non-vacuity: a forest with mixed kinds meets the hypotheses, and the
    kind filter really drops siblings *)
